@@ -69,6 +69,9 @@ func Main(c *engine.Check, scenarios []*vrt.Scenario, boundQuick, boundThorough 
 	if c.Thorough() {
 		bound = boundThorough
 	}
+	if v := os.Getenv("VERIF_BOUND"); v != "" { // experiments only: the registered commands do not set it
+		fmt.Sscanf(v, "%d", &bound)
+	}
 	// self-test: the default schedule of every scenario replays identically (nondeterminism the
 	// scheduler does not own would show up here), before anything is explored.
 	var blocks []block
